@@ -1,5 +1,5 @@
 """C16 -- hosts are stored in one canonical form and hostile hosts are rejected."""
-from .common import run_model, run_progs
+from .common import run_model, run_progs, run_value_machine
 
 FINISH = dict(rule="R1 MC_Host: every spelling (position of '::', leading zeros, case, IPv4 tail, zone id: 72 per address) of every "
                    "address over {0,1,0xabc}^NVary through ImplUrl!EncodeHost = the one canonical form computed by Host.tla (itself "
@@ -15,3 +15,4 @@ def run(out, sc, tier, seed):
     out.exhaustive = True
     run_progs(out, sc, "C16", {"gen": "hosts", "seed": seed, "maxtok": 2 if tier == "quick" else 3, "keep": 1.0 if tier == "quick" else 0.5,
                                "nv6": 300 if tier == "quick" else 20000}, "hosts", shard_size=2500)
+    run_value_machine(out, sc, "C16", tier, fields=None)
